@@ -125,6 +125,27 @@ pub fn exec(case: &Value) -> Value {
                 }
             })
             .collect::<Vec<_>>()),
+        "pathbytes" => json!(case["paths"]
+            .as_array()
+            .unwrap()
+            .iter()
+            .map(|p| {
+                // a path given by its bytes (not necessarily UTF-8): it enters as its lossy text
+                let bytes: Vec<u8> = p["bytes"].as_array().map(|a| a.iter().map(|b| b.as_u64().unwrap_or(0) as u8).collect()).unwrap_or_default();
+                let pb = PathBuf::from(<std::ffi::OsString as std::os::unix::ffi::OsStringExt>::from_vec(bytes));
+                let g = pb.get_from_iter([].iter());
+                let o = Some(pb.clone()).get_from_iter([].iter());
+                let r = pb.as_path().get_from_iter([].iter());
+                if g == o && g == r {
+                    match g {
+                        Some(v) => fv_to_json(&v),
+                        None => Value::Null,
+                    }
+                } else {
+                    json!("mismatch")
+                }
+            })
+            .collect::<Vec<_>>()),
         "boolip" => {
             let mut outs = vec![];
             for b in [true, false] {
@@ -225,6 +246,20 @@ pub fn gen(tier: &str, seed: u64, out: &mut dyn FnMut(Value)) {
     // text, paths, options
     let ss = ["", "a", "C:\\Windows\\System32", "/bin/ls", "\u{e9}\u{10ffff}", "none", "42", " spaced ", "a\nb", "\"q\"", "8.8.8.8"];
     out(json!({"op": "textconv", "ss": ss, "tag": "text / path / Option", "nt": true}));
+    // paths by their bytes, valid UTF-8 or not; the expected text is std's lossy decoding
+    let mut paths = vec![];
+    let mut byte_sets: Vec<Vec<u8>> = vec![b"/bin/ls".to_vec(), b"/tmp/\xffx".to_vec(), b"\xff".to_vec(), b"/a/\xc3".to_vec(), b"/a/\xc3\xa9".to_vec(), b"\xed\xa0\x80".to_vec(), b"rel/\xf0\x9f".to_vec(), vec![]];
+    for _ in 0..60 {
+        let n = 1 + rng.below(8);
+        byte_sets.push((0..n).map(|_| *rng.pick(&[b'/', b'a', 0xffu8, 0xc3, 0xa9, 0x80, 0xf0, 0x9f, 0x92, 0xa9, b'.', b' '])).collect());
+    }
+    for b in byte_sets {
+        if b.contains(&0) {
+            continue;
+        }
+        paths.push(json!({"bytes": b, "lossy": String::from_utf8_lossy(&b)}));
+    }
+    out(json!({"op": "pathbytes", "paths": paths, "tag": "paths by bytes (lossy text)", "nt": true}));
     let mut ips: Vec<String> = vec!["8.8.4.4".into(), "0.0.0.0".into(), "255.255.255.255".into(), "::1".into(), "2001:db8::1".into(), "::ffff:1.2.3.4".into(), "fe80::".into()];
     for _ in 0..200 {
         ips.push(format!("{}.{}.{}.{}", rng.below(256), rng.below(256), rng.below(256), rng.below(256)));
